@@ -410,6 +410,14 @@ def c15_sentinel_statement_first_in_anonymous_main_program():
         signal.signal(signal.SIGALRM, old)
 
 
+def c02_group_equal_to_the_content_of_an_earlier_group():
+    """D67 (fixed): '((a+b)) * (a+b)' printed with a second pair of parentheses around the right operand; a literal equal to the content of an earlier one rejected"""
+    t = _printed("program p\nx = ((a+b)) * (a+b)\nz = f((a+b)) + (a+b)\nend program p\n")
+    ok1 = "x = ((a + b)) * (a + b)" in t and "z = f((a + b)) + (a + b)" in t
+    ok2, info = _only_syntax_error_free("program p\ns = \"'a b'\" // 'a b'\nend program p\n")
+    return ok1 and ok2, dict(printed=t, literal_case=info)
+
+
 def c06_named_end_of_unnamed_unit():
     """D43 (fixed)"""
     return _only_syntax_error("block data\nend block data foo\n")
